@@ -205,6 +205,8 @@ type History struct {
 	GapMs int    `json:"gap_ms,omitempty"`
 	// OmitMaxFails leaves max_fails out of the passive policy: the documented default (1) applies.
 	OmitMaxFails bool `json:"omit_max_fails,omitempty"`
+	// OmitTryInterval leaves try_interval out of the load-balancing options: the documented default (250 ms) applies.
+	OmitTryInterval bool `json:"omit_try_interval,omitempty"`
 	// HeldConn keeps one proxied connection to A open across A's outage and recovery (active checks).
 	HeldConn bool `json:"held_conn,omitempty"`
 }
@@ -225,6 +227,9 @@ func genHistory(seed int64, i int) *History {
 		h.OmitMaxFails, h.M = true, 1
 	}
 	h.HeldConn = r.Intn(2) == 0
+	if r.Intn(4) == 0 {
+		h.OmitTryInterval, h.I = true, 250 // the documented default
+	}
 	return h
 }
 
@@ -457,8 +462,11 @@ func retry(c *fw.Ctx, canary *oracle.Canary, h *History) {
 	T := time.Duration(h.T) * time.Millisecond
 	I := time.Duration(h.I) * time.Millisecond
 	sel := nextTag("sel")
-	routes := proxyRoutes([]map[string]any{dial(A), dial(B)}, map[string]any{
-		"load_balancing": map[string]any{"try_duration": fmt.Sprintf("%dms", h.T), "try_interval": fmt.Sprintf("%dms", h.I)}}, sel)
+	lb := map[string]any{"try_duration": fmt.Sprintf("%dms", h.T), "try_interval": fmt.Sprintf("%dms", h.I)}
+	if h.OmitTryInterval {
+		delete(lb, "try_interval")
+	}
+	routes := proxyRoutes([]map[string]any{dial(A), dial(B)}, map[string]any{"load_balancing": lb}, sel)
 	app, err := drive.StartApp(routes, "5s")
 	if err != nil {
 		report(c, h, "config-rejected", err.Error(), routes)
